@@ -98,7 +98,12 @@ func c07Child(ctx *runCtx, spec string) {
 	var seed int64
 	var async bool
 	fmt.Sscanf(spec, "N=%d R=%d rounds=%d seed=%d async=%t", &n, &r, &rounds, &seed, &async)
-	c, err := cluster.Start(cluster.Config{Replicas: r, Partitions: 7, TableSize: 1 << 20, Async: async}, n)
+	// read repair in every second cluster: the read half of an atomic operation is a Get on the owner
+	rr := r > 1 && (seed/10)%2 == 1
+	if rr {
+		ctx.rep.Count("clusters_with_read_repair", 1)
+	}
+	c, err := cluster.Start(cluster.Config{Replicas: r, Partitions: 7, TableSize: 1 << 20, Async: async, ReadRepair: rr}, n)
 	if err != nil {
 		ctx.rep.Inconclusive("cluster start: " + err.Error())
 		return
